@@ -379,9 +379,9 @@ fn c09<M: Machine>(w: &World<M>, slot: u16, s: &Slot<M>, o_h: &Obs, cfg: CheckCf
             None
         }
         Family::Mean => {
-            if cfg.exact_data && matches!(M::TRANSFORM, Transform::Id | Transform::Diff) {
-                return exact_compare::<M>(slot, o_h, &o_b, &oneshot, stats);
-            }
+            // (exactly representable data used to demand bit equality here; that presumes a
+            // sum-of-values / sum-of-squares implementation and would alarm on an equally valid
+            // Welford-style one, whose updates divide - the rounding tolerances apply instead)
             let r = mean_stream_check::<M>(slot, s, 0, o_h, &o_b, stats);
             if r.is_some() {
                 return r;
@@ -389,9 +389,6 @@ fn c09<M: Machine>(w: &World<M>, slot: u16, s: &Slot<M>, o_h: &Obs, cfg: CheckCf
             mean_ci_check::<M>(slot, s, o_h, &o_b, &oneshot, stats)
         }
         Family::Unpaired => {
-            if cfg.exact_data {
-                return exact_compare::<M>(slot, o_h, &o_b, &oneshot, stats);
-            }
             for k in 0..2 {
                 if s.model.count(k) == 0 {
                     continue;
@@ -404,31 +401,6 @@ fn c09<M: Machine>(w: &World<M>, slot: u16, s: &Slot<M>, o_h: &Obs, cfg: CheckCf
             unpaired_ci_check::<M>(slot, s, o_h, &o_b, &oneshot, stats)
         }
     }
-}
-
-fn exact_compare<M: Machine>(slot: u16, o_h: &Obs, o_b: &Obs, oneshot: &[(u8, Out<Iv>)], stats: &mut Stats) -> Option<Violation> {
-    stats.inc("c09_exact_data_checks");
-    if o_h != o_b {
-        return Some(Violation::new(
-            "C09",
-            "exact-data-history-differs-from-batch",
-            slot,
-            format!("all sums are exactly representable, so results must be bit-identical: {}", first_diff(o_h, o_b)),
-        ));
-    }
-    for (c, r) in oneshot {
-        if let Some(Val::Ci(h)) = obs_get(o_h, What::Ci(*c)) {
-            if h != r {
-                return Some(Violation::new(
-                    "C09",
-                    "exact-data-history-differs-from-batch",
-                    slot,
-                    format!("{}: history {:?} one-shot {:?}", conf_name(*c), h, r),
-                ));
-            }
-        }
-    }
-    None
 }
 
 /// tolerances in the accumulation space for stream k
